@@ -318,7 +318,67 @@ def op_probe_models(pkg, op):
     return {"failed": failed}
 
 
-OPS = {"roundtrip": op_roundtrip, "import_all": op_import_all, "signature": op_signature, "construct": op_construct, "call": op_call, "get_kwargs": op_get_kwargs, "parse": op_parse, "multipart": op_multipart, "probe_models": op_probe_models}
+def op_client_seq(pkg, op):
+    """life cycle of AuthenticatedClient objects: op = {module, steps: [...]}; returns, per step, None or (for `use`) the list of
+    values the captured request carries under that client's auth header name (or {"exc": ...})."""
+    import httpx, attrs
+    mod = importlib.import_module(pkg + "." + op["module"])
+    client_mod = importlib.import_module(pkg + ".client")
+    captured = []
+
+    def handler(request):
+        captured.append(request)
+        return httpx.Response(200, json={})
+    clients, out = [], []
+    loop = asyncio.new_event_loop()
+    try:
+        for st in op["steps"]:
+            k = st["k"]
+            try:
+                if k == "new":
+                    clients.append(client_mod.AuthenticatedClient(base_url="http://testserver", token=st["tok"], prefix=st["pre"], auth_header_name=st["auth"],
+                                                                  headers=dict(st.get("headers") or {}), httpx_args={"transport": httpx.MockTransport(handler)}))
+                    out.append(None)
+                elif k == "evolve_token":
+                    clients.append(attrs.evolve(clients[st["i"]], token=st["tok"])); out.append(None)
+                elif k == "evolve_auth":
+                    clients.append(attrs.evolve(clients[st["i"]], prefix=st["pre"], auth_header_name=st["auth"])); out.append(None)
+                elif k == "derive":
+                    c = clients[st["i"]]
+                    how = st.get("how", "with_timeout")
+                    if how == "with_timeout":
+                        clients.append(c.with_timeout(httpx.Timeout(5.0)))
+                    elif how == "with_cookies":
+                        clients.append(c.with_cookies({"ck": "v"}))
+                    else:
+                        clients.append(attrs.evolve(c, raise_on_unexpected_status=True))
+                    out.append(None)
+                elif k == "with_headers":
+                    clients.append(clients[st["i"]].with_headers(dict(st["h"]))); out.append(None)
+                elif k == "set_token":
+                    clients[st["i"]].token = st["tok"]; out.append(None)
+                elif k == "use":
+                    c = clients[st["i"]]
+                    n0 = len(captured)
+                    if st["variant"] == "async":
+                        loop.run_until_complete(mod.asyncio_detailed(client=c))
+                    else:
+                        mod.sync_detailed(client=c)
+                    reqs = captured[n0:]
+                    if len(reqs) != 1:
+                        out.append({"exc": {"type": "RequestCount", "msg": str(len(reqs))}})
+                    else:
+                        out.append({"vals": reqs[0].headers.get_list(c.auth_header_name), "all": [[a, b] for a, b in reqs[0].headers.multi_items()]})
+                else:
+                    out.append({"exc": {"type": "BadStep", "msg": k}})
+            except BaseException as e:  # noqa
+                out.append({"exc": exc_info(e), "tb": traceback.format_exc()[-500:]})
+    finally:
+        loop.close()
+    return {"steps": out}
+
+
+OPS = {"client_seq": op_client_seq, "roundtrip": op_roundtrip, "import_all": op_import_all, "signature": op_signature, "construct": op_construct, "call": op_call, "get_kwargs": op_get_kwargs, "parse": op_parse, "multipart": op_multipart, "probe_models": op_probe_models}
 
 
 def main():
